@@ -78,8 +78,17 @@ type Contract struct {
 	PureParams map[string]bool
 	Split      []string
 	Covers     []Clause
+	After      []AfterClause // ghost assertions placed after calls
 	NoFault    bool // claim absence of implicit run-time faults (default true for verified functions)
 	Iface      bool
+}
+
+// AfterClause: "after <callee> assert [label:] <e>" - a ghost assert-then-assume
+// placed after every call of <callee> in the function (result names are bound).
+type AfterClause struct {
+	Callee string
+	Cl     Clause
+	Inst   bool // "after <callee> instantiate <requires-label>(args...)": sound by construction, no obligation
 }
 
 type SpecFunc struct {
@@ -245,6 +254,7 @@ func (cs *Contracts) parseFile(path, pkg string) error {
 	var finish func() error
 	type pending struct {
 		kind  string
+		extra string
 		loop  int
 		src   string
 		line  int
@@ -278,6 +288,10 @@ func (cs *Contracts) parseFile(path, pkg string) error {
 			cur.MayPanic = &cl
 		case "cover":
 			cur.Covers = append(cur.Covers, cl)
+		case "after":
+			cur.After = append(cur.After, AfterClause{Callee: p.extra, Cl: cl})
+		case "after_inst":
+			cur.After = append(cur.After, AfterClause{Callee: p.extra, Cl: cl, Inst: true})
 		case "invariant":
 			ls := cur.loop(p.loop)
 			ls.Inv = append(ls.Inv, cl)
@@ -388,9 +402,28 @@ func (cs *Contracts) parseFile(path, pkg string) error {
 			if err := needCur(); err != nil {
 				return err
 			}
-			if err := startClause(word, 0, rest, word == "ensures" || word == "ensures_panic" || word == "cover" || word == "requires"); err != nil {
+			if err := startClause(word, 0, rest, word == "ensures" || word == "ensures_panic" || word == "cover" || word == "requires" || word == "assumes"); err != nil {
 				return err
 			}
+		case "after":
+			if err := needCur(); err != nil {
+				return err
+			}
+			if i := strings.Index(rest, " instantiate "); i >= 0 {
+				if err := startClause("after_inst", 0, strings.TrimSpace(rest[i+13:]), false); err != nil {
+					return err
+				}
+				pend.extra = strings.TrimSpace(rest[:i])
+				continue
+			}
+			i := strings.Index(rest, " assert ")
+			if i < 0 {
+				return fmt.Errorf("%s:%d: expected 'after <callee> assert <e>' or 'after <callee> instantiate <label>(args)'", path, lineNo)
+			}
+			if err := startClause("after", 0, strings.TrimSpace(rest[i+8:]), true); err != nil {
+				return err
+			}
+			pend.extra = strings.TrimSpace(rest[:i])
 		case "modifies":
 			if err := needCur(); err != nil {
 				return err
